@@ -65,6 +65,36 @@ func nitrogenProjects(c *core.Ctx, n, years int, salt int64, legumes bool, deepT
 				greenCut = true
 			}
 		}
+		cleaningCut := false
+		if legumes && i%10 == 6 && !o.NoCrops {
+			// newly sown alfalfa / grass with a cleaning cut three weeks after sowing, cuttings left on the field (less
+			// above-ground matter than the stubble the residue formula assumes), then regular cuts with the cuttings exported
+			b, e := p.Rotation[0].Harv, p.Cfg.End
+			y, _, _ := gen.YMD(b)
+			sow := gen.DayNum(y+1, 4, 1+r.Intn(10))
+			crop := []string{"AA", "GR"}[(i/10)%2]
+			cuts := []int{sow + 12 + r.Intn(7), gen.DayNum(y+1, 6, 10+r.Intn(10)), gen.DayNum(y+1, 8, 1+r.Intn(10)), gen.DayNum(y+1, 9, 15+r.Intn(10))}
+			if sow > b+5 && cuts[3] < e-3 {
+				p.Rotation = p.Rotation[:1]
+				from := sow
+				for k, cut := range cuts {
+					rex := 100
+					if k == 0 {
+						rex = 0
+					}
+					p.Rotation = append(p.Rotation, gen.RotEntry{Crop: crop, Sow: from, Harv: cut, RexPct: rex})
+					from = cut + 1
+				}
+				var till []gen.TillEv
+				for _, t := range p.Till {
+					if t.Date < sow-3 || t.Date > cuts[3]+3 {
+						till = append(till, t)
+					}
+				}
+				p.Till = till
+				cleaningCut = true
+			}
+		}
 		midMeasure := false
 		if p.Measure != nil && i%8 == 2 {
 			// the measured profile is dated INSIDE the simulated period, a few weeks after a dressing that holds ammonium:
@@ -87,7 +117,7 @@ func nitrogenProjects(c *core.Ctx, n, years int, salt int64, legumes bool, deepT
 				}
 			}
 		}
-		p.Arms = []string{fmt.Sprintf("heavyRain=%v drain=%v shallowGW=%v legumes=%v peat=%v bare=%v wetTopsoil=%v greenCut=%v midMeasure=%v", o.HeavyRain, o.Drain, o.ShallowGW, legumes && i%2 == 0, o.Peat, o.NoCrops, o.WetTopsoil, greenCut, midMeasure)}
+		p.Arms = []string{fmt.Sprintf("heavyRain=%v drain=%v shallowGW=%v legumes=%v peat=%v bare=%v wetTopsoil=%v greenCut=%v midMeasure=%v cleaningCut=%v", o.HeavyRain, o.Drain, o.ShallowGW, legumes && i%2 == 0, o.Peat, o.NoCrops, o.WetTopsoil, greenCut, midMeasure, cleaningCut)}
 		ps = append(ps, p)
 	}
 	return ps
